@@ -43,9 +43,16 @@ pub enum KeyChoice {
     /// the zone is signed with keys/tag0); signer = the target's zone; that zone's DNSKEY query
     /// is answered with the attacker's self-signed DNSKEY set
     CollidingKey,
+    /// the attacker OWNS a real, properly delegated zone of the hierarchy: the GENUINE key of a
+    /// secure child zone of the target's zone, but the RRSIG names the TARGET's zone as signer
+    /// (key tag / algorithm of the child key); the child's genuine, validly signed DNSKEY RRset is
+    /// appended to every answer to the target zone's DNSKEY query
+    OwnedChildZoneKeyClaimingTarget,
+    /// as above with the genuine key of a secure sibling zone
+    OwnedSiblingZoneKeyClaimingTarget,
 }
 
-pub const KEY_CHOICES: [KeyChoice; 7] = [
+pub const KEY_CHOICES: [KeyChoice; 9] = [
     KeyChoice::SiblingZone,
     KeyChoice::ChildZone,
     KeyChoice::AncestorZone,
@@ -53,6 +60,8 @@ pub const KEY_CHOICES: [KeyChoice; 7] = [
     KeyChoice::AttackerOwnZone,
     KeyChoice::InsecureZone,
     KeyChoice::CollidingKey,
+    KeyChoice::OwnedChildZoneKeyClaimingTarget,
+    KeyChoice::OwnedSiblingZoneKeyClaimingTarget,
 ];
 
 impl KeyChoice {
@@ -65,6 +74,8 @@ impl KeyChoice {
             KeyChoice::AttackerOwnZone => "attacker-zone-key",
             KeyChoice::InsecureZone => "insecure-zone-key",
             KeyChoice::CollidingKey => "attacker-key-with-colliding-tag",
+            KeyChoice::OwnedChildZoneKeyClaimingTarget => "owned-child-zone-key-claiming-target-as-signer",
+            KeyChoice::OwnedSiblingZoneKeyClaimingTarget => "owned-sibling-zone-key-claiming-target-as-signer",
         }
     }
     fn from_tag(s: &str) -> Option<Self> {
@@ -167,9 +178,20 @@ pub enum Move {
     /// owner, the parent apex or a sibling name; unsigned or with an attacker RRSIG; into the
     /// answer or the authority section
     InjectAlongside { what: RecordType, owner: AlongOwner, signed: bool, authority: bool },
+    /// (DNSKEY positions) the GENUINE, validly signed DNSKEY RRset of another zone of the hierarchy
+    /// (0 = a secure child of the queried zone, 1 = its parent, 2 = a secure sibling) is appended
+    /// to the intact answer
+    InjectGenuineDnskeySet { which: u8 },
     /// (DNSKEY positions) the attacker key is ADDED to the genuine DNSKEY RRset and an attacker
     /// RRSIG over the WHOLE augmented set is added next to the genuine RRSIGs
-    AugmentDnskeySet,
+    /// `key`: 0 = the injected attacker key, 1 = the REAL key of an owned secure sibling zone, 2 = of
+    /// an owned secure child zone (key material placed under the queried zone's apex)
+    AugmentDnskeySet { key: u8 },
+    /// a GENUINE signed RRset of the answering zone (`parent` = false) or its parent zone, the
+    /// `src`-th in `reown_sources` order, with its genuine RRSIGs and its OWN owner name, replayed
+    /// into this response: instead of the answer (`alongside` = false) or next to it, in the answer
+    /// or the authority section
+    ReplayGenuine { parent: bool, src: u16, answer: bool, alongside: bool },
     /// answer emptied, rcode NXDOMAIN, authority := the zone's genuine SOA with its RRSIGs plus a
     /// forged, unsigned NSEC at the apex that spans the whole zone (apex -> apex)
     ForgedApexNsecWithGenuineSoa,
@@ -214,7 +236,9 @@ impl Fault {
                 Move::ForgedApexNsecWithGenuineSoa => "replace-by-forged-apex-nsec+genuine-soa".into(),
                 Move::ReplayWildcard { with_authority } => format!("replay-genuine-wildcard(authority-kept={with_authority})"),
                 Move::InjectAlongside { what, owner, signed, authority } => format!("inject-alongside({what},{owner:?},{},{})", if *signed { "attacker-signed" } else { "unsigned" }, if *authority { "authority" } else { "answer" }),
-                Move::AugmentDnskeySet => "augment-dnskey-set".into(),
+                Move::AugmentDnskeySet { key } => format!("augment-dnskey-set({})", ["injected-key", "owned-sibling-zone-key", "owned-child-zone-key"][*key as usize % 3]),
+                Move::ReplayGenuine { parent, src, answer, alongside } => format!("replay-genuine-rrset({},#{src},{},{})", if *parent { "parent-zone" } else { "own-zone" }, if *answer { "answer" } else { "authority" }, if *alongside { "alongside" } else { "instead" }),
+                Move::InjectGenuineDnskeySet { which } => format!("inject-genuine-dnskey-set-of({})", ["child", "parent", "sibling"][*which as usize % 3]),
                 Move::Reorder { sigs, perm } => format!("reorder-{}(perm {perm})", if *sigs { "rrsigs" } else { "rrset" }),
                 Move::Reowned { parent, src, target, answer } => {
                     format!("reowned-genuine-rrset({},#{src},{target:?},{})", if *parent { "parent-zone" } else { "own-zone" }, if *answer { "answer" } else { "authority" })
@@ -239,6 +263,7 @@ impl Fault {
                 KeyChoice::AttackerSameZone => "injected-key",
                 KeyChoice::AttackerOwnZone | KeyChoice::InsecureZone => "key-of-insecure-or-nonexistent-zone",
                 KeyChoice::CollidingKey => "colliding-tag-key",
+                KeyChoice::OwnedChildZoneKeyClaimingTarget | KeyChoice::OwnedSiblingZoneKeyClaimingTarget => "real-key-of-an-owned-zone,signer:=target-zone",
             }
         }
         match self {
@@ -276,7 +301,11 @@ impl Fault {
                 // the type class of the source is added by `Script::scene_tag`
                 Move::Reowned { .. } => "reowned-genuine-rrset".into(),
                 Move::InjectAlongside { what, owner, .. } => format!("inject-alongside({what},{})", if *owner == AlongOwner::Own { "own-owner" } else { "foreign-owner" }),
-                Move::AugmentDnskeySet => "augment-dnskey-set(attacker-key,self-signed)".into(),
+                Move::AugmentDnskeySet { key: 0 } => "augment-dnskey-set(attacker-key,self-signed)".into(),
+                Move::AugmentDnskeySet { .. } => "augment-dnskey-set(real-key-of-an-owned-zone,self-signed)".into(),
+                // the type class of the source is added by the scene
+                Move::ReplayGenuine { alongside, .. } => format!("replay-genuine-rrset-of-other-owner({})", if *alongside { "alongside" } else { "instead" }),
+                Move::InjectGenuineDnskeySet { .. } => "inject-genuine-dnskey-set-of-another-zone".into(),
             },
         }
     }
@@ -291,6 +320,12 @@ impl Fault {
                     Move::Reorder { sigs, perm } => {
                         v["sigs"] = json!(sigs);
                         v["perm"] = json!(perm);
+                    }
+                    Move::ReplayGenuine { parent, src, answer, alongside } => {
+                        v["parent"] = json!(parent);
+                        v["src"] = json!(src);
+                        v["answer"] = json!(answer);
+                        v["alongside"] = json!(alongside);
                     }
                     Move::InjectAlongside { what, owner, signed, authority } => {
                         v["what"] = json!(u16::from(*what));
@@ -352,8 +387,12 @@ impl Fault {
         } else if mv.starts_with("inject-alongside") {
             let owner = ALONG_OWNERS.into_iter().find(|o| format!("{o:?}") == v["along_owner"].as_str().unwrap_or(""))?;
             Move::InjectAlongside { what: RecordType::from(v["what"].as_u64()? as u16), owner, signed: v["signed"].as_bool()?, authority: v["authority"].as_bool()? }
-        } else if mv == "augment-dnskey-set" {
-            Move::AugmentDnskeySet
+        } else if mv.starts_with("augment-dnskey-set") {
+            Move::AugmentDnskeySet { key: if mv.contains("sibling") { 1 } else if mv.contains("child") { 2 } else { 0 } }
+        } else if mv.starts_with("replay-genuine-rrset(") {
+            Move::ReplayGenuine { parent: v["parent"].as_bool()?, src: v["src"].as_u64()? as u16, answer: v["answer"].as_bool()?, alongside: v["alongside"].as_bool()? }
+        } else if mv.starts_with("inject-genuine-dnskey-set-of") {
+            Move::InjectGenuineDnskeySet { which: if mv.contains("child") { 0 } else if mv.contains("parent") { 1 } else { 2 } }
         } else if mv.starts_with("reowned-genuine-rrset") {
             let target = RE_TARGETS.into_iter().find(|o| format!("{o:?}") == v["target"].as_str().unwrap_or(""))?;
             Move::Reowned { parent: v["parent"].as_bool()?, src: v["src"].as_u64()? as u16, target, answer: v["answer"].as_bool()? }
@@ -420,12 +459,24 @@ fn resolve_key(hier: &Hier, choice: KeyChoice, tz: usize) -> Option<(ZoneKey, Op
         }
         KeyChoice::AttackerSameZone => {
             let k = attacker_key(choice, torigin);
-            Some((k.clone(), Some(Injection { at: key_of(torigin, RecordType::DNSKEY), key: k, replace: false })))
+            Some((k.clone(), Some(Injection { at: key_of(torigin, RecordType::DNSKEY), key: k, genuine_set_of: None, replace: false })))
         }
         KeyChoice::AttackerOwnZone => {
             let signer = vsec::n("atk.");
             let k = attacker_key(choice, &signer);
-            Some((k.clone(), Some(Injection { at: key_of(&signer, RecordType::DNSKEY), key: k, replace: true })))
+            Some((k.clone(), Some(Injection { at: key_of(&signer, RecordType::DNSKEY), key: k, genuine_set_of: None, replace: true })))
+        }
+        KeyChoice::OwnedChildZoneKeyClaimingTarget | KeyChoice::OwnedSiblingZoneKeyClaimingTarget => {
+            let child = choice == KeyChoice::OwnedChildZoneKeyClaimingTarget;
+            let (zi, z) = h.zones.iter().enumerate().find(|(_, z)| {
+                z.signed()
+                    && z.origin != *torigin
+                    && hier.status(&z.origin, RecordType::SOA) == Status::Secure
+                    && if child { torigin.zone_of(&z.origin) } else { !torigin.zone_of(&z.origin) && !z.origin.zone_of(torigin) }
+            })?;
+            // the owned zone's real key material, presented as if it were a key of the target zone
+            let k = ZoneKey::new(z.keys[0].mat, torigin, z.keys[0].flags);
+            Some((k.clone(), Some(Injection { at: key_of(torigin, RecordType::DNSKEY), key: k, genuine_set_of: Some(zi), replace: false })))
         }
         KeyChoice::CollidingKey => {
             let z = &h.zones[tz];
@@ -434,7 +485,7 @@ fn resolve_key(hier: &Hier, choice: KeyChoice, tz: usize) -> Option<(ZoneKey, Op
             }
             let k = ZoneKey::new(keys::TAG[1], torigin, z.keys[0].flags);
             assert_eq!(k.tag(), z.keys[0].tag(), "colliding key tags differ");
-            Some((k.clone(), Some(Injection { at: key_of(torigin, RecordType::DNSKEY), key: k, replace: true })))
+            Some((k.clone(), Some(Injection { at: key_of(torigin, RecordType::DNSKEY), key: k, genuine_set_of: None, replace: true })))
         }
         KeyChoice::InsecureZone => {
             let iname = hier.insecure_name.as_ref()?;
@@ -444,7 +495,7 @@ fn resolve_key(hier: &Hier, choice: KeyChoice, tz: usize) -> Option<(ZoneKey, Op
                 return None;
             }
             let k = attacker_key(choice, &signer);
-            Some((k.clone(), Some(Injection { at: key_of(&signer, RecordType::DNSKEY), key: k, replace: true })))
+            Some((k.clone(), Some(Injection { at: key_of(&signer, RecordType::DNSKEY), key: k, genuine_set_of: None, replace: true })))
         }
     }
 }
@@ -453,6 +504,9 @@ fn resolve_key(hier: &Hier, choice: KeyChoice, tz: usize) -> Option<(ZoneKey, Op
 pub struct Injection {
     pub at: Key,
     pub key: ZoneKey,
+    /// Some(zone index): instead of an attacker key, the GENUINE published DNSKEY RRset of that
+    /// zone with its genuine RRSIGs is appended
+    pub genuine_set_of: Option<usize>,
     /// true: the whole answer becomes the attacker's self-signed DNSKEY set; false: the attacker's
     /// DNSKEY is appended (unsigned) to the honest answer
     pub replace: bool,
@@ -747,11 +801,82 @@ impl Script {
                 }
                 true
             }
-            Move::AugmentDnskeySet => {
+            Move::InjectGenuineDnskeySet { which } => {
                 if q.query_type != RecordType::DNSKEY {
                     return false;
                 }
-                let key = attacker_key(KeyChoice::AttackerSameZone, &q.name);
+                let h = &self.hier.h;
+                let me = &q.name;
+                let z = match which % 3 {
+                    0 => h.zones.iter().find(|z| z.signed() && z.origin != *me && me.zone_of(&z.origin)),
+                    1 => {
+                        if me.is_root() {
+                            None
+                        } else {
+                            h.deepest(&me.base_name()).map(|i| &h.zones[i]).filter(|z| z.signed())
+                        }
+                    }
+                    _ => h.zones.iter().find(|z| z.signed() && z.origin != *me && !me.zone_of(&z.origin) && !z.origin.zone_of(me)),
+                };
+                let Some(z) = z else { return false };
+                if !dry {
+                    for r in z.published.iter().filter(|r| r.name == z.origin && (r.record_type() == RecordType::DNSKEY || is_rrsig_covering(r, &z.origin, RecordType::DNSKEY))) {
+                        m.answers.push(r.clone());
+                    }
+                }
+                true
+            }
+            Move::ReplayGenuine { parent, src, answer, alongside } => {
+                let h = &self.hier.h;
+                let Some(zq) = h.zone_for(&q.name, q.query_type) else { return false };
+                let zs = if *parent {
+                    let apex = &h.zones[zq].origin;
+                    if apex.is_root() {
+                        return false;
+                    }
+                    match h.deepest(&apex.base_name()) {
+                        Some(z) => z,
+                        None => return false,
+                    }
+                } else {
+                    zq
+                };
+                let Some((so, st)) = self.reown_sources(zs).get(*src as usize).cloned() else { return false };
+                if so == q.name && st == q.query_type {
+                    return false; // that is the honest answer itself
+                }
+                if dry {
+                    return true;
+                }
+                let recs: Vec<Record> = h.zones[zs].published.iter().filter(|r| r.name == so && (r.record_type() == st || is_rrsig_covering(r, &so, st))).cloned().collect();
+                if !*alongside {
+                    m.answers.clear();
+                    m.authorities.clear();
+                    m.additionals.clear();
+                    m.metadata.response_code = ResponseCode::NoError;
+                }
+                if *answer {
+                    m.answers.extend(recs);
+                } else {
+                    m.authorities.extend(recs);
+                }
+                true
+            }
+            Move::AugmentDnskeySet { key: which } => {
+                if q.query_type != RecordType::DNSKEY {
+                    return false;
+                }
+                let key = match which % 3 {
+                    0 => attacker_key(KeyChoice::AttackerSameZone, &q.name),
+                    w => {
+                        let Some(tz) = self.hier.h.zone_index(&q.name) else { return false };
+                        let choice = if w == 1 { KeyChoice::OwnedSiblingZoneKeyClaimingTarget } else { KeyChoice::OwnedChildZoneKeyClaimingTarget };
+                        match resolve_key(&self.hier, choice, tz) {
+                            Some((k, _)) => k,
+                            None => return false,
+                        }
+                    }
+                };
                 let extra = sign::dnskey_record(&q.name, 300, key.dnskey());
                 let mut set: Vec<Record> = m.answers.iter().filter(|r| r.name == q.name && r.record_type() == RecordType::DNSKEY).cloned().collect();
                 if set.is_empty() && !dry {
@@ -1012,6 +1137,16 @@ impl Tamper for Script {
         // DNSKEY injections registered by resign / forge faults (possibly by this very response)
         let inj: Vec<Injection> = self.injections.lock().unwrap().iter().filter(|i| i.at == k).cloned().collect();
         for i in inj {
+            if let Some(zi) = i.genuine_set_of {
+                // the owned zone's genuine DNSKEY RRset with its genuine RRSIGs rides along
+                let z = &self.hier.h.zones[zi];
+                for r in z.published.iter().filter(|r| r.name == z.origin && (r.record_type() == RecordType::DNSKEY || is_rrsig_covering(r, &z.origin, RecordType::DNSKEY))) {
+                    if !m.answers.iter().any(|x| x.name == r.name && x.data == r.data) {
+                        m.answers.push(r.clone());
+                    }
+                }
+                continue;
+            }
             let rec = sign::dnskey_record(&i.key.zone, 300, i.key.dnskey());
             if i.replace {
                 let sig = sign_with(&[rec.clone()], &i.key);
@@ -1026,6 +1161,14 @@ impl Tamper for Script {
             }
         }
         m.edns = None;
+        if std::env::var("C07_REPLAY_TRACE").is_ok() {
+            eprintln!("served for {} {}: rcode {}", q.name, q.query_type, m.metadata.response_code);
+            for (s, v) in [("an", &m.answers), ("au", &m.authorities)] {
+                for r in v.iter() {
+                    eprintln!("   {s} {}", r.to_string().chars().take(110).collect::<String>());
+                }
+            }
+        }
         let Ok(mut bytes) = m.to_vec() else { return honest };
         if !flips.is_empty() {
             if let Ok(w) = vref::wire::walk(&bytes) {
@@ -1132,6 +1275,53 @@ pub fn singles_at(script_probe: &Script, q: &Query, honest: &Message, thorough: 
             }
         }
     }
+    // genuine RRsets of OTHER owners replayed with their own owner (the attacker owns a real,
+    // correctly delegated zone: its genuine parent-signed DS RRset etc.). Quick: the RRsets of the
+    // queried TYPE under other owners (e.g. the DS RRsets of the sibling delegations at a DS
+    // position), into the answer section, instead of and next to the answer. Thorough: also into the
+    // authority section.
+    for parent in [false, true] {
+        let h = &script_probe.hier.h;
+        let Some(zq) = h.zone_for(&q.name, q.query_type) else { continue };
+        let zs = if parent {
+            if h.zones[zq].origin.is_root() {
+                continue;
+            }
+            match h.deepest(&h.zones[zq].origin.base_name()) {
+                Some(z) => z,
+                None => continue,
+            }
+        } else {
+            zq
+        };
+        if !h.zones[zs].signed() {
+            continue;
+        }
+        let mut seen_types: Vec<RecordType> = vec![];
+        for (i, (so, st)) in script_probe.reown_sources(zs).iter().enumerate() {
+            if *so == q.name && *st == q.query_type {
+                continue;
+            }
+            let same_type = *st == q.query_type;
+            let first_of_type = !seen_types.contains(st);
+            seen_types.push(*st);
+            // (RRsets of OTHER types replayed under their own owner behave like the re-owned ones of
+            // `Reowned`; only the queried type is enumerated, in both tiers)
+            let _ = first_of_type;
+            let pick = same_type;
+            if !pick {
+                continue;
+            }
+            for alongside in [false, true] {
+                for answer in [true, false] {
+                    if !answer && !thorough {
+                        continue;
+                    }
+                    out.push(Fault::Resp { q: k.clone(), mv: Move::ReplayGenuine { parent, src: i as u16, answer, alongside } });
+                }
+            }
+        }
+    }
     // inject alongside. Quick: attacker DS / DNSKEY at the validator's query and at DS / DNSKEY
     // positions; thorough: DS / DNSKEY at every position, NS / A as well at DS / DNSKEY positions
     {
@@ -1150,7 +1340,19 @@ pub fn singles_at(script_probe: &Script, q: &Query, honest: &Message, thorough: 
             }
         }
         if q.query_type == RecordType::DNSKEY && honest.answers.iter().any(|r| r.record_type() == RecordType::DNSKEY) {
-            out.push(Fault::Resp { q: k.clone(), mv: Move::AugmentDnskeySet });
+            for key in 0..3u8 {
+                let mv = Move::AugmentDnskeySet { key };
+                let mut probe = honest.clone();
+                if script_probe.apply_move(q, &mut probe, &mv, true) {
+                    out.push(Fault::Resp { q: k.clone(), mv });
+                }
+            }
+            for which in 0..3u8 {
+                let mv = Move::InjectGenuineDnskeySet { which };
+                if script_probe.move_applicable(q, &mv) {
+                    out.push(Fault::Resp { q: k.clone(), mv });
+                }
+            }
         }
     }
     for sigs in [false, true] {
